@@ -19,7 +19,7 @@ COMPONENTS = ['sort']
 THEOREMS = [
     'C17_sort_total', 'C17_sort_perm', 'C17_sort_sorted', 'C17_sort_stable', 'C17_sort_idx_spec', 'C17_sort_rearranges',
     'C17_sort_fuel_sufficient', 'C17_sort_error_propagates', 'C17_sort_keyf_error_propagates',
-    'C17_uniq_spec', 'C17_uniq_no_adjacent_duplicates', 'C17_set_is_uniq_sort',
+    'C17_uniq_spec', 'C17_uniq_no_adjacent_duplicates', 'C17_set_is_uniq_sort', 'C17_set_spec',
     'C17_union_spec', 'C17_inter_spec', 'C17_diff_spec', 'C17_member_spec',
     'C17_minArray_first_min', 'C17_maxArray_first_max',
     'C17_nonvacuous_sort', 'C17_nonvacuous_uniq', 'C17_nonvacuous_sets', 'C17_nonvacuous_member_minmax',
@@ -610,6 +610,16 @@ def threshold_sweep(rng, lens):
             pool = [['n', v] for v in range(d)]
             out.append({'op': 'sort', 'mode': 'proj', 'a': [rng.choice(pool) for _ in range(n)]})
         out.append({'op': 'set', 'mode': 'proj', 'a': [['n', rng.randint(0, max(1, n // 3))] for _ in range(n)]})
+        # trapped keys, distinct except for one or two pairs: the first comparison that meets a pair names its left
+        # operand, which pins the order of comparisons (threshold, split point, pivot choice, merge order)
+        for rep in range(3):
+            if n >= 2:
+                ks = [['n', v] for v in range(n)]
+                rng.shuffle(ks)
+                for _ in range(1 + rep % 2):
+                    i, j = rng.sample(range(n), 2)
+                    ks[i] = ks[j]
+                out.append({'op': 'sort', 'mode': 'trap', 'a': ks})
     return out
 
 
@@ -718,9 +728,13 @@ def check(run):
                   'a key function is deterministic (the model evaluates keyF through a function of the element)']
     pres = vlib.prove(ID, THEOREMS, ALLOWED_AXIOMS)
     run.add_proof(pres, THEOREMS)
+    quick = run.tier == 'quick'
+    if not quick and pres['ok']:
+        rc, out = vlib.sh(['coqchk', '-silent', '-o', '-Q', '.', 'RJ', 'RJ.Props.C17'], cwd=vlib.COQ, timeout=2400)
+        run.add_obligation('coqchk re-checks the compiled cone of Props/C17.vo and reports no axioms',
+                           rc == 0 and '* Axioms: <none>' in out, out[-300:])
     impl_exe = vlib.build_harness()
     model_exe = vlib.build_model('sort')
-    quick = run.tier == 'quick'
     cases = load_corpus()
     run.count('corpus_cases', len(cases))
     cases += exhaustive_small_sets()
